@@ -468,37 +468,54 @@ func (p *pair) runTableSet(r *evid.Run) {
 		sort.Strings(ns)
 		return strings.Join(ns, ",")
 	}
-	// events: 0 create x, 1 delete x, 2 create y, 3 delete y, 4 reconcile
-	total := par.SeqCount(5, 4)
-	for i := int64(0); i < total; i++ {
-		path := par.SeqAt(5, 4, i)
-		for _, n := range []string{"set-x", "set-y"} {
-			_ = p.leader.DeleteTable(n)
+	// events: 0 create x, 1 delete x, 2 create y, 3 delete y, 4 reconcile; from the empty set (length
+	// <= 4) and from the non-initial state "x exists on both sides" (length <= 3)
+	t0 := time.Now()
+	for _, start := range []string{"empty", "x-on-both"} {
+		depth := 4
+		if start != "empty" {
+			depth = 3
 		}
-		_ = m.VerifReconcileTables()
-		for _, e := range path {
-			switch e {
-			case 0:
+		total := par.SeqCount(5, depth)
+		for i := int64(0); i < total; i++ {
+			path := par.SeqAt(5, depth, i)
+			for _, n := range []string{"set-x", "set-y"} {
+				_ = p.leader.DeleteTable(n)
+			}
+			_ = m.VerifReconcileTables()
+			if start == "x-on-both" {
 				_, _ = p.leader.CreateTable("set-x")
-			case 1:
-				_ = p.leader.DeleteTable("set-x")
-			case 2:
-				_, _ = p.leader.CreateTable("set-y")
-			case 3:
-				_ = p.leader.DeleteTable("set-y")
-			case 4:
-				if err := m.VerifReconcileTables(); err != nil {
+				_ = m.VerifReconcileTables()
+				if l, f := names(p.leader.Engine), names(p.follower.Engine); l != "set-x" || f != "set-x" {
 					r.Inconcl.Add(1)
 					continue
 				}
-				if l, f := names(p.leader.Engine), names(p.follower.Engine); l != f {
-					r.Violate("table-set-not-converged-after-reconcile", fmt.Sprintf("leader {%s} follower {%s} after %v", l, f, path), map[string]any{"kind": "tableset", "path": path})
+			}
+			for _, e := range path {
+				switch e {
+				case 0:
+					_, _ = p.leader.CreateTable("set-x")
+				case 1:
+					_ = p.leader.DeleteTable("set-x")
+				case 2:
+					_, _ = p.leader.CreateTable("set-y")
+				case 3:
+					_ = p.leader.DeleteTable("set-y")
+				case 4:
+					if err := m.VerifReconcileTables(); err != nil {
+						r.Inconcl.Add(1)
+						continue
+					}
+					if l, f := names(p.leader.Engine), names(p.follower.Engine); l != f {
+						r.Violate("table-set-not-converged-after-reconcile", fmt.Sprintf("leader {%s} follower {%s} after %v from start state %s", l, f, path, start), map[string]any{"kind": "tableset", "path": path, "start": start})
+					}
 				}
 			}
+			r.Outcome(fmt.Sprint("tableset", start, path, names(p.leader.Engine)), true)
+			r.AddExtra("table_set_paths", 1)
 		}
-		r.Outcome(fmt.Sprint("tableset", path, names(p.leader.Engine)), true)
-		r.AddExtra("table_set_paths", 1)
 	}
+	r.Extra("table_set_seconds", int(time.Since(t0).Seconds()))
 }
 
 func valid(path []int) bool {
